@@ -249,8 +249,8 @@ Proof. exact int_functions_exact. Qed.
 
 (* ---- the regenerated file is well-formed: kinds in the model's order, every mapped
    overload has one row per argument and one column per kind *)
-Example C15_gen_selfcheck : gen_kinds = all_kinds /\ forall cf, rows_wellformed cf = true.
-Proof. exact (conj gen_kinds_ok rows_wellformed_checked). Qed.
+Example C15_gen_selfcheck : gen_kinds = all_kinds /\ gen_rows_uniform = true /\ forall cf, rows_wellformed cf = true.
+Proof. exact (conj gen_kinds_ok (conj rows_uniform_checked rows_wellformed_checked)). Qed.
 
 (* ---- non-vacuity ---- *)
 (* the float laws of C15_order_consistent_num are satisfiable (integers as a toy float type) *)
